@@ -88,6 +88,14 @@ func setOf(s string) map[string]bool {
 	return m
 }
 
+// RequireSetsOrEmpty returns the first custom required set, or "".
+func (c CharSpec) RequireSetsOrEmpty() string {
+	if len(c.RequireSets) == 0 {
+		return ""
+	}
+	return c.RequireSets[0]
+}
+
 // Excluded is the set of characters that must never appear.
 func (c CharSpec) Excluded() map[string]bool {
 	return setOf(c.ExcludeChars + classes(c.Exclude))
